@@ -63,43 +63,7 @@ func (c *Ctx) lookupFactsBySim(rule, tname string, fd *ast.FuncDecl, formats []s
 		}
 		return p.steps[0], true
 	}
-	// walk visits every sub-value
-	var walk func(v sval, f func(sval))
-	walk = func(v sval, f func(sval)) {
-		f(v)
-		switch x := v.(type) {
-		case svBin:
-			walk(x.x, f)
-			walk(x.y, f)
-		case svNot:
-			walk(x.x, f)
-		case svCall:
-			for _, a := range x.args {
-				walk(a, f)
-			}
-			if x.recv != nil {
-				walk(x.recv, f)
-			}
-		case svIndex:
-			walk(x.x, f)
-			walk(x.i, f)
-		case svHas:
-			walk(x.x, f)
-			walk(x.i, f)
-		case svAddr:
-			walk(x.p, f)
-		case svSel:
-			walk(x.x, f)
-		case svStruct:
-			for _, fv := range x.fields {
-				walk(fv, f)
-			}
-		case svList:
-			for _, e := range x.elems {
-				walk(e, f)
-			}
-		}
-	}
+	walk := svWalk
 	type consult struct {
 		comp string
 		id   int
